@@ -101,8 +101,12 @@ impl Cfg {
 pub enum Ev {
     /// poll(x) n times
     Samples(u32, u32),
+    /// poll(x) n times with no getter called in between (the observer is not looking); one look afterwards
+    SamplesBlind(u32, u32),
     PollPressed,
     PollReleased,
+    /// the observer reads finger_is_pressing() and value() (after SamplesBlind)
+    Look,
     /// perturbation twins evaluated at this instant: 0 fresh-press twin, 1 newest-samples twin, 2 raised-sample twin
     Twin(u8, u32),
     Restart,
@@ -129,6 +133,7 @@ const P_RUN_EXACTLY_L_MINUS_1: usize = 15;
 const P_RETAINED_VALUE_CHECKS: usize = 16;
 const P_SWEEP_TRACES: usize = 17;
 const P_BUFFER_WRAPPED_IN_PRESS: usize = 18;
+const P_BLIND_SAMPLES: usize = 19;
 
 pub struct Exec {
     cfg: Cfg,
@@ -147,6 +152,8 @@ pub struct Exec {
     ambiguous: bool,
     presses: u32,
     short_runs_since_press: u32,
+    /// set when a press ended while nobody was looking: (value the press ended on, tolerance)
+    lift_expect: Option<(f64, f64)>,
 }
 
 impl Exec {
@@ -164,7 +171,8 @@ impl Exec {
         (m - (m - m * m) * self.e) / self.b as f64
     }
 
-    fn value_oracle(&mut self, ctx: &mut Ctx) {
+    /// (expected value, tolerance, corrected min, corrected max, window) for the current run, which must be a press
+    fn expected_value(&self) -> (f64, f64, f64, f64, (usize, usize)) {
         let l = self.run.len();
         let lo = l - self.cap;
         let hi = l - self.discard;
@@ -180,28 +188,34 @@ impl Exec {
                 mx = x;
             }
         }
-        let v = real!(self.r.value()) as f64;
-        ctx.probe(P_VALUE_CHECKS);
         let want = self.g(mean);
         // resolution of an f32 running sum of n samples: every addition rounds by at most 2^-24 of the partial sum,
         // so the mean is off by at most 2^-24 * (n+1)/2 * max; doubled, carried through the correction
         // (slope <= (1+e)/b), plus a few ulps for the correction and the rescaling themselves
         let tol = n * 5.960464477539063e-8 * mx.max(0.0) * (1.0 + self.e) / self.b as f64 + 8.0 * 5.960464477539063e-8;
+        (want, tol, self.g(mn), self.g(mx), (lo, hi))
+    }
+
+    fn value_oracle(&mut self, ctx: &mut Ctx) {
+        let l = self.run.len();
+        let (want, tol, glo, ghi, (lo, hi)) = self.expected_value();
+        let v = real!(self.r.value()) as f64;
+        ctx.probe(P_VALUE_CHECKS);
         ctx.check(16, "value_is_corrected_window_mean", (v - want).abs() <= tol, || {
             format!(
                 "press of {} samples: value {:.7}, corrected mean of the capture window (samples {}..{} of the press) {:.7}",
                 l, v, lo, hi, want
             )
         });
-        let (glo, ghi) = (self.g(mn), self.g(mx));
         ctx.check(16, "value_between_corrected_min_and_max", v >= glo - tol && v <= ghi + tol, || {
             format!("value {:.7} outside the corrected min/max of the contributing samples [{:.7}, {:.7}]", v, glo, ghi)
         });
         ctx.check(16, "value_in_unit_range", (0.0..=1.0).contains(&v), || format!("value {:e} outside [0,1] while pressing", v));
     }
 
+    /// one sample into the real controller and into the run-length model; no getter is called
     #[inline(always)]
-    fn one(&mut self, x: f32, ctx: &mut Ctx) {
+    fn feed(&mut self, x: f32, ctx: &mut Ctx) {
         real!(self.r.poll(x));
         ctx.steps += 1;
         if (x - self.b).abs() < 1e-6 {
@@ -228,6 +242,11 @@ impl Exec {
                     ctx.probe(P_RUN_EXACTLY_L_MINUS_1);
                 }
             }
+            if was {
+                // what value() has to keep showing from now on: the value of the last sample of the press
+                let (want, tol, _, _, _) = self.expected_value();
+                self.lift_expect = Some((want, tol));
+            }
             self.run.clear();
             self.prefix.truncate(1);
             self.pressing = false;
@@ -247,6 +266,46 @@ impl Exec {
         if !self.pressing && was {
             self.jr = true;
         }
+    }
+
+    /// the observer looks at the controller after a stretch of samples during which nobody called a getter
+    fn observe_after_blind(&mut self, ctx: &mut Ctx) {
+        if self.ambiguous {
+            return;
+        }
+        let got = real!(self.r.pressing());
+        let (l, need, want) = (self.run.len(), self.l_need, self.pressing);
+        ctx.check(15, "pressing_iff_unbroken_capture_run", got == want, || {
+            format!(
+                "first look after unobserved samples: unbroken run of {} in-range samples (capture needs {}), finger_is_pressing() = {}",
+                l, need, got
+            )
+        });
+        let v = real!(self.r.value());
+        if self.pressing {
+            self.value_oracle(ctx);
+        } else if let Some((want, tol)) = self.lift_expect {
+            ctx.probe(P_RETAINED_VALUE_CHECKS);
+            ctx.check(16, "value_retained_while_not_pressing", (v as f64 - want).abs() <= tol, || {
+                format!(
+                    "first look after unobserved samples, no press reported: value() is {:.7} but the last reported press ended on {:.7}",
+                    v, want
+                )
+            });
+        } else {
+            let r = self.retained;
+            ctx.check(16, "value_retained_while_not_pressing", v.to_bits() == r, || {
+                format!("no press was reported during the unobserved samples, yet value() changed from {:e} to {:e}", f32::from_bits(r), v)
+            });
+        }
+        self.retained = v.to_bits();
+        self.lift_expect = None;
+    }
+
+    #[inline(always)]
+    fn one(&mut self, x: f32, ctx: &mut Ctx) {
+        self.feed(x, ctx);
+        self.lift_expect = None;
         if self.ambiguous {
             return;
         }
@@ -380,6 +439,7 @@ impl Engine for RibbonEngine {
         "retained_value_checks",
         "sweep_traces",
         "ring_buffer_wrapped_inside_press",
+        "unobserved_sample_stretches",
     ];
     const NFAULT: usize = 5;
     const COMPONENTS: &'static [(&'static str, &'static str)] = &[
@@ -440,6 +500,7 @@ impl Engine for RibbonEngine {
             ambiguous: false,
             presses: 0,
             short_runs_since_press: 0,
+            lift_expect: None,
         }
     }
 
@@ -458,6 +519,20 @@ impl Engine for RibbonEngine {
                 let frac = ((ex.run.len() * 4) / ex.l_need.max(1)).min(7) as u32;
                 ctx.transition(1 | ((x < ex.b) as u32) << 3 | (p0 as u32) << 4 | (ex.pressing as u32) << 5 | frac << 6 | ((*n).min(15)) << 9);
             }
+            Ev::SamplesBlind(bits, n) => {
+                let x = f32::from_bits(*bits);
+                ctx.sim_ns += (*n as f64 * 1e9 / ex.cfg.fs() as f64) as u64;
+                let p0 = ex.pressing;
+                for i in 0..*n {
+                    ex.feed(x, ctx);
+                    if i & 0xffff == 0xffff {
+                        heartbeat();
+                    }
+                }
+                ctx.probe(P_BLIND_SAMPLES);
+                ctx.transition(5 | ((x < ex.b) as u32) << 3 | (p0 as u32) << 4 | (ex.pressing as u32) << 5 | ((*n).min(15)) << 9);
+            }
+            Ev::Look => ex.observe_after_blind(ctx),
             Ev::PollPressed | Ev::PollReleased => {
                 let pressed = matches!(ev, Ev::PollPressed);
                 let got = if pressed { real!(ex.r.just_pressed()) } else { real!(ex.r.just_released()) };
@@ -500,6 +575,7 @@ impl Engine for RibbonEngine {
                 ex.jp = false;
                 ex.jr = false;
                 ex.retained = real!(ex.r.value()).to_bits();
+                ex.lift_expect = None;
                 ex.ambiguous = false;
                 ex.short_runs_since_press = 0;
                 ctx.transition(3);
@@ -540,6 +616,8 @@ impl Engine for RibbonEngine {
     fn ev_json(e: &Ev) -> J {
         match e {
             Ev::Samples(b, n) => J::Arr(vec![J::s("poll"), J::hex32(*b), J::u(*n as u64), J::Num(f32::from_bits(*b) as f64)]),
+            Ev::SamplesBlind(b, n) => J::Arr(vec![J::s("poll_unobserved"), J::hex32(*b), J::u(*n as u64), J::Num(f32::from_bits(*b) as f64)]),
+            Ev::Look => J::Arr(vec![J::s("look")]),
             Ev::PollPressed => J::Arr(vec![J::s("just_pressed")]),
             Ev::PollReleased => J::Arr(vec![J::s("just_released")]),
             Ev::Twin(k, a) => J::Arr(vec![J::s("twin"), J::s(["fresh_press", "newest_samples", "raised_sample"][(*k).min(2) as usize]), J::u(*a as u64)]),
@@ -551,6 +629,8 @@ impl Engine for RibbonEngine {
         let (n, a) = ev_name(j)?;
         Ok(match n {
             "poll" => Ev::Samples(arg(a, 0)?.as_hex32().ok_or("bad bits")?, ju64(arg(a, 1)?)? as u32),
+            "poll_unobserved" => Ev::SamplesBlind(arg(a, 0)?.as_hex32().ok_or("bad bits")?, ju64(arg(a, 1)?)? as u32),
+            "look" => Ev::Look,
             "just_pressed" => Ev::PollPressed,
             "just_released" => Ev::PollReleased,
             "twin" => Ev::Twin(
@@ -600,6 +680,7 @@ impl Engine for RibbonEngine {
     fn merge(a: &Ev, b: &Ev) -> Option<Ev> {
         match (a, b) {
             (Ev::Samples(x, n), Ev::Samples(y, m)) if x == y => n.checked_add(*m).map(|k| Ev::Samples(*x, k)),
+            (Ev::SamplesBlind(x, n), Ev::SamplesBlind(y, m)) if x == y => n.checked_add(*m).map(|k| Ev::SamplesBlind(*x, k)),
             _ => None,
         }
     }
@@ -622,6 +703,9 @@ fn gen_cfg(rng: &mut Rng, small: bool) -> Cfg {
 }
 
 fn in_range(rng: &mut Rng, b: f32) -> f32 {
+    if rng.chance(0.03) {
+        return -0.0; // equals 0.0, a legal reading with the sign bit set
+    }
     let hi = b - 2e-6;
     match rng.below(10) {
         0 => 0.0,
@@ -642,6 +726,22 @@ fn out_of_range(rng: &mut Rng, b: f32) -> f32 {
 }
 
 /// a stretch of in-range samples: constant, drifting or noisy, as runs of equal samples
+thread_local! {
+    /// generator-side switch: the current run's observer is not looking between explicit looks
+    static BLIND: std::cell::Cell<bool> = const { std::cell::Cell::new(false) };
+}
+
+fn samples(rng: &mut Rng, t: &mut Trace<RibbonEngine>, bits: u32, n: u32) {
+    if BLIND.with(|b| b.get()) {
+        t.push(Ev::SamplesBlind(bits, n));
+        if rng.chance(0.25) {
+            t.push(Ev::Look);
+        }
+    } else {
+        t.push(Ev::Samples(bits, n));
+    }
+}
+
 fn press(rng: &mut Rng, t: &mut Trace<RibbonEngine>, b: f32, mut n: usize) {
     let style = rng.below(4);
     let mut pos = in_range(rng, b);
@@ -652,7 +752,7 @@ fn press(rng: &mut Rng, t: &mut Trace<RibbonEngine>, b: f32, mut n: usize) {
             _ => rng.range(1, 6).min(n as u64) as usize,
         }
         .min(n);
-        t.push(Ev::Samples(pos.to_bits(), k as u32));
+        { let (b__, n__) = (pos.to_bits(), k as u32); samples(rng, t, b__, n__); }
         n -= k;
         match style {
             1 => {
@@ -685,6 +785,8 @@ fn random_run(rng: &mut Rng, prof: &Profile, sink: &mut Sink<RibbonEngine>) {
     }
     let l = t.exec().l_need();
     let p_poll = *rng.pick(&[0.0, 0.1, 0.4, 0.8]);
+    // in a fifth of the runs nobody calls a getter between explicit looks (a control-rate reader, lazily computed outputs)
+    BLIND.with(|bl| bl.set(!prof.chaos && rng.chance(0.2)));
     if prof.chaos {
         for _ in 0..rng.range(1, 4) {
             let fs = match rng.below(3) {
@@ -705,10 +807,10 @@ fn random_run(rng: &mut Rng, prof: &Profile, sink: &mut Sink<RibbonEngine>) {
             let o = out_of_range(rng, b);
             if (l as u64 + 1) * n < 400_000 {
                 for _ in 0..n {
-                    t.push(Ev::Samples(x.to_bits(), l as u32 + rng.below(2) as u32));
-                    t.push(Ev::Samples(o.to_bits(), 1));
+                    { let (b__, n__) = (x.to_bits(), l as u32 + rng.below(2) as u32); samples(rng, &mut t, b__, n__); }
+                    { let (b__, n__) = (o.to_bits(), 1); samples(rng, &mut t, b__, n__); }
                 }
-                t.push(Ev::Samples(x.to_bits(), l as u32));
+                { let (b__, n__) = (x.to_bits(), l as u32); samples(rng, &mut t, b__, n__); }
                 for _ in 0..2 {
                     t.push(Ev::PollPressed);
                     t.push(Ev::PollReleased);
@@ -718,10 +820,10 @@ fn random_run(rng: &mut Rng, prof: &Profile, sink: &mut Sink<RibbonEngine>) {
             // one very long press: 65 536 +- a few consecutive in-range samples and beyond
             let n = 65_536 - l as u64 + rng.below(2 * l as u64 + 8);
             let x = in_range(rng, b);
-            t.push(Ev::Samples(x.to_bits(), n as u32));
-            t.push(Ev::Samples(in_range(rng, b).to_bits(), 2 * l as u32 + 70_000));
+            { let (b__, n__) = (x.to_bits(), n as u32); samples(rng, &mut t, b__, n__); }
+            { let (b__, n__) = (in_range(rng, b).to_bits(), 2 * l as u32 + 70_000); samples(rng, &mut t, b__, n__); }
             twins_cheap(rng, &mut t);
-            t.push(Ev::Samples(out_of_range(rng, b).to_bits(), 2));
+            { let (b__, n__) = (out_of_range(rng, b).to_bits(), 2); samples(rng, &mut t, b__, n__); }
         }
     }
     let budget = budget + t.ctx.steps;
@@ -743,7 +845,7 @@ fn random_run(rng: &mut Rng, prof: &Profile, sink: &mut Sink<RibbonEngine>) {
                 press(rng, &mut t, b, n);
                 twins(rng, &mut t);
                 polls(rng, &mut t, p_poll);
-                t.push(Ev::Samples(out_of_range(rng, b).to_bits(), rng.range(1, 6) as u32));
+                { let (b__, n__) = (out_of_range(rng, b).to_bits(), rng.range(1, 6) as u32); samples(rng, &mut t, b__, n__); }
             }
             1 => {
                 // a tap shorter than the capture time
@@ -760,14 +862,14 @@ fn random_run(rng: &mut Rng, prof: &Profile, sink: &mut Sink<RibbonEngine>) {
                 if l > 1 {
                     press(rng, &mut t, b, n);
                 }
-                t.push(Ev::Samples(out_of_range(rng, b).to_bits(), rng.range(1, 3) as u32));
+                { let (b__, n__) = (out_of_range(rng, b).to_bits(), rng.range(1, 3) as u32); samples(rng, &mut t, b__, n__); }
             }
             2 => {
                 // bounce: a single out-of-range sample inside what would be a press
                 let n1 = 1 + rng.usize(l + 4);
                 press(rng, &mut t, b, n1);
                 t.ctx.fault(F_BOUNCE_INSIDE_PRESS);
-                t.push(Ev::Samples(out_of_range(rng, b).to_bits(), 1));
+                { let (b__, n__) = (out_of_range(rng, b).to_bits(), 1); samples(rng, &mut t, b__, n__); }
                 let n2 = match rng.below(4) {
                     0 => l.saturating_sub(n1).max(1),
                     1 => l - 1,
@@ -781,13 +883,13 @@ fn random_run(rng: &mut Rng, prof: &Profile, sink: &mut Sink<RibbonEngine>) {
             3 => {
                 // lifted, with isolated in-range glitches
                 for _ in 0..rng.range(1, 6) {
-                    t.push(Ev::Samples(out_of_range(rng, b).to_bits(), rng.range(1, 8) as u32));
+                    { let (b__, n__) = (out_of_range(rng, b).to_bits(), rng.range(1, 8) as u32); samples(rng, &mut t, b__, n__); }
                     if rng.chance(0.6) {
                         t.ctx.fault(F_GLITCH_WHILE_LIFTED);
-                        t.push(Ev::Samples(in_range(rng, b).to_bits(), rng.range(1, 3) as u32));
+                        { let (b__, n__) = (in_range(rng, b).to_bits(), rng.range(1, 3) as u32); samples(rng, &mut t, b__, n__); }
                     }
                 }
-                t.push(Ev::Samples(1.0f32.to_bits(), 1));
+                { let (b__, n__) = (1.0f32.to_bits(), 1); samples(rng, &mut t, b__, n__); }
             }
             4 => {
                 // keep pressing (no lift) — position changes inside a press
@@ -802,7 +904,7 @@ fn random_run(rng: &mut Rng, prof: &Profile, sink: &mut Sink<RibbonEngine>) {
                 while total < 2 * l && !t.dead {
                     let n = 1 + rng.usize((l / 3).max(1));
                     press(rng, &mut t, b, n.min(l.saturating_sub(1)).max(1));
-                    t.push(Ev::Samples(out_of_range(rng, b).to_bits(), 1));
+                    { let (b__, n__) = (out_of_range(rng, b).to_bits(), 1); samples(rng, &mut t, b__, n__); }
                     total += n;
                     if l <= 1 {
                         break;
@@ -811,6 +913,10 @@ fn random_run(rng: &mut Rng, prof: &Profile, sink: &mut Sink<RibbonEngine>) {
             }
         }
     }
+    if BLIND.with(|bl| bl.get()) {
+        t.push(Ev::Look);
+    }
+    BLIND.with(|bl| bl.set(false));
     polls(rng, &mut t, 0.5);
     sink.end(t);
 }
